@@ -220,6 +220,11 @@ class Socks5Connection(ConnectionInterface):
 
         with self._connect_lock:
             if self._connection is None:
+                if self._connect_failed:
+                    # The request that was establishing the connection failed
+                    # while we were waiting for it, and the pool has dropped it.
+                    raise ConnectionNotAvailable()
+
                 stream = None
                 try:
                     # Connect to the proxy
